@@ -225,3 +225,53 @@ theorem charge_saveKeyValue (env : Env) (c : Call) (ctx : Ctx)
   omega
 
 end Esdt
+
+namespace Esdt
+
+/-- ESDTNFTTransfer, sender side, destination on the executing shard: own cost + DataCopyPerByte × length of the encoding of
+    the entry as merged into the destination (`Value := quantity + existing`) — the code marshals it although no message
+    leaves the shard; the charge is still priced by one schedule -/
+theorem charge_nftTransferSender_sameShard (env : Env) (c : Call) (ctx : Ctx)
+    (hs : present env.nshards env.self c.caller = true)
+    (hx : ∀ d, c.args[3]? = some d → env.self = shardOf env.nshards d) :
+    Post (esdtNFTTransferSender env c) ctx (fun out _ => ∃ t' : Token,
+      charge c.gas out = env.gas.fn.esdtNFTTransfer + u64 ((encToken t').length * env.gas.base.dataCopyPerByte)) := by
+  unfold esdtNFTTransferSender
+  simp only [hs, Bool.not_true, Bool.false_eq_true, if_false]
+  xsteps
+  rename_i tok h0 dst hdst _ _ _ hgas nb h1 _
+  have hg1 : ¬ c.gas < env.gas.fn.esdtNFTTransfer := of_decide_eq_false hgas
+  apply Post.mono (spec_getNFTOnSender _ _ _ ctx)
+  intro t c1 _
+  xsteps
+  apply Post.mono (spec_saveNFT _ _ _ _ c1)
+  intro _ c2 _
+  have hxx := hx _ hdst
+  simp only [hxx, decide_true, if_true, Bool.not_true, Bool.false_eq_true, if_false]
+  xsteps
+  apply Post.mono (ro_loadAcct c2)
+  intro _ c3 _
+  xsteps
+  apply Post.mono (spec_addNFTToDestination env _ _ _ _ _ c3)
+  intro t' c4 _
+  xsteps
+  apply Post.mono (ro_saveAcct c4)
+  intro _ c5 _
+  xsteps
+  apply Post.pure
+  xsteps
+  apply Post.mono (spec_marshalToken _ c5)
+  intro b c6 ⟨_, hb⟩
+  xsteps
+  rename_i hguard
+  have hg2 : ¬ (u64 (b.length * env.gas.base.dataCopyPerByte) > c.gas - env.gas.fn.esdtNFTTransfer) :=
+    of_decide_eq_false hguard
+  subst hb
+  repeat' (first | xstep | (show Post _ _ _; split) | apply Post.pure)
+  all_goals
+    refine ⟨t', ?_⟩
+    simp only [charge, fwd, addOutputTransfer, List.flatMap_cons, List.flatMap_nil, List.map_cons, List.map_nil,
+      List.sum_cons, List.sum_nil, List.append_nil]
+    omega
+
+end Esdt
